@@ -14,6 +14,7 @@ import (
 	"github.com/google/go-tdx-guest/verify"
 	"github.com/google/go-tdx-guest/verify/trust"
 	vp "github.com/google/go-tdx-guest/zzvp"
+	"google.golang.org/protobuf/encoding/prototext"
 	"google.golang.org/protobuf/proto"
 )
 
@@ -21,6 +22,8 @@ import (
 
 type env19 struct {
 	configParseFails bool
+	configIsText     bool // the config path ends in .textproto
+	cfgUnknownField  bool // a text config names a field the schema does not have: malformed (strict decoding rejects it)
 	cfg              *ccpb.Config // what decoding the config file yields (merged into the tool's config)
 	quoteReadFails   bool
 	quoteParseFails  bool
@@ -110,7 +113,20 @@ func m_protoUnmarshal(b []byte, m proto.Message) error {
 }
 
 //vp:model google.golang.org/protobuf/encoding/prototext.Unmarshal
-func m_prototextUnmarshal(b []byte, m proto.Message) error { return m_protoUnmarshal(b, m) }
+func m_prototextUnmarshal(b []byte, m proto.Message) error {
+	return m_prototextOptUnmarshal(prototext.UnmarshalOptions{}, b, m)
+}
+
+// contract of the text decoder: an unknown field name is an error unless DiscardUnknown is set,
+// in which case the field is dropped silently.
+//
+//vp:model (google.golang.org/protobuf/encoding/prototext.UnmarshalOptions).Unmarshal
+func m_prototextOptUnmarshal(o prototext.UnmarshalOptions, b []byte, m proto.Message) error {
+	if _, isCfg := m.(*ccpb.Config); isCfg && e19.cfgUnknownField && !o.DiscardUnknown {
+		return errors.New("proto: unknown field")
+	}
+	return m_protoUnmarshal(b, m)
+}
 
 //vp:model os.Open
 func m_osOpen(name string) (*os.File, error) {
@@ -268,7 +284,7 @@ var theIn in19
 // expectedExit: the statement, step by step in the order the tool works.
 func expectedExit(in in19) int {
 	e := e19
-	if in.configPresent && e.configParseFails {
+	if in.configPresent && (e.configParseFails || e.cfgUnknownField) {
 		return 1
 	}
 	if in.fCheckCrl == "maybe" || in.fColl == "maybe" || in.fMinQe == "4294967296" || in.fMinQe == "zz" || in.fRtmrs == "xyz" {
@@ -357,6 +373,8 @@ func h19b(focus int) {
 	if focus == 3 {
 		e19.configParseFails = vp.Choose("configParseFails", 2) == 1 && in.configPresent
 		e19.pathMissing = vp.Choose("bundlePathMissing", 2) == 1 && in.fBundles != ""
+		e19.configIsText = in.configPresent && vp.Choose("configIsText", 2) == 1
+		e19.cfgUnknownField = e19.configIsText && vp.Choose("textConfigHasUnknownField", 2) == 1
 	}
 	// the config file's content
 	cfg := &ccpb.Config{}
@@ -378,7 +396,11 @@ func h19b(focus int) {
 	e19.cfg = cfg
 	// flags
 	if in.configPresent {
-		setFlag("config", "/cfg/config.binarypb")
+		if e19.configIsText {
+			setFlag("config", "/cfg/config.textproto")
+		} else {
+			setFlag("config", "/cfg/config.binarypb")
+		}
 	}
 	setFlag("in", "/in/quote.dat")
 	setFlag("check_crl", in.fCheckCrl)
